@@ -2,6 +2,7 @@ package props
 
 import (
 	"bufio"
+	"bytes"
 	"fmt"
 	"io"
 	"os"
@@ -171,6 +172,75 @@ func c18CheckWrite(c c18WriteCase) engine.Result {
 	if k > 0 || c.Len%188 != 0 {
 		res.Nontrivial = 1
 	}
+	return res
+}
+
+// ---- Write of large slices (size-gated paths)
+
+type c18BigWrite struct {
+	Adapter int `json:"adapter"`
+	Packets int `json:"packets"`
+	Fail    int `json:"failing_packet_write"` // -1 = none
+}
+
+var c18BigStream = func() []byte {
+	out := make([]byte, 4100*188)
+	x := uint64(0xD1B54A32D192ED03)
+	for i := range out {
+		x ^= x << 13
+		x ^= x >> 7
+		x ^= x << 17
+		out[i] = byte(x >> 24)
+	}
+	return out
+}()
+
+func c18CheckBigWrite(c c18BigWrite) engine.Result {
+	var res engine.Result
+	data := c18BigStream[:c.Packets*188]
+	in := append([]byte{}, data...)
+	var spw ref.ScriptedPacketWriter
+	spw.Reset(c.Fail)
+	spw.FailN = []int{0, 188, 100}[(c.Fail+3)%3]
+	spw.FailErr = [...]error{nil, io.EOF, io.ErrShortWrite, syscall.EPIPE}[(c.Fail+c.Packets+4)%4]
+	w := c18Make(c.Adapter, &spw)
+	desc := func() string {
+		return fmt.Sprintf("%s.Write of %d packets, packet write #%d fails", c18Adapters[c.Adapter], c.Packets, c.Fail)
+	}
+	var n int
+	var err error
+	if engine.Guard(&res, "Write", func() { n, err = w.Write(in) }) {
+		return res
+	}
+	res.Evals++
+	if !bytes.Equal(in, data) {
+		res.Failf("Write|large-slice|input-modified", "%s: input modified", desc())
+	}
+	if c.Fail >= 0 {
+		if err != spw.InjectedErr() {
+			res.Failf("Write|large-slice,failing-write|error", "%s: n=%d err=%v, want the packet writer's error", desc(), n, err)
+		}
+		if spw.Calls != c.Fail+1 {
+			res.Failf("Write|large-slice,failing-write|delivered-after-failure", "%s: the packet writer was called %d times, want %d", desc(), spw.Calls, c.Fail+1)
+		}
+	} else {
+		if err != nil || n != len(in) {
+			res.Failf("Write|large-slice,all-succeed|result", "%s: n=%d err=%v, want %d, nil", desc(), n, err, len(in))
+		}
+		if spw.Calls != c.Packets {
+			res.Failf("Write|large-slice,all-succeed|packets", "%s: the packet writer was called %d times, want %d", desc(), spw.Calls, c.Packets)
+		}
+	}
+	c18Content(&res, "Write|large-slice|packets", &spw, 0, data, desc)
+	// a second, short Write through the same adapter comes out as from a fresh one
+	spw.Reset(-1)
+	n2, err2 := w.Write(c18Stream[:2*188])
+	if err2 != nil || n2 != 2*188 || spw.Calls != 2 {
+		res.Failf("Write|large-slice|next-write", "%s: the following two-packet Write returned %d, %v with %d deliveries", desc(), n2, err2, spw.Calls)
+	}
+	c18Content(&res, "Write|large-slice|next-write-packets", &spw, 0, c18Stream[:2*188], desc)
+	res.Outcome(c.Fail >= 0, spw.Calls, n, err)
+	res.Nontrivial = 1
 	return res
 }
 
@@ -569,6 +639,32 @@ func init() {
 				}
 			},
 			Check: c18CheckWrite, Batch: 16,
+		},
+		&engine.Enum[c18BigWrite]{
+			Name: "write-large-slices",
+			Rule: "one Write of k pairwise distinct packets for k in {8, 64, 255..257, 348, 349, 511..513, 1023..1025, 1500, 2047..2049, 4096} (thorough also every power of two +-1 up to 4096 and 4100; next to 64 KiB and to 2^8..2^12 packets, where an implementation may switch to a bulk path) through every adapter x failing packet write at no index and at index 0, 1, 2, k/2, k-3, k-2, k-1 (error value and reported count rotating): same oracle as write-all-lengths — the writer's error, NO delivery after the failing one, deliveries byte-equal and in order — followed by a two-packet Write through the same adapter",
+			Gen: func(r *engine.Run, emit func(c18BigWrite)) {
+				ks := []int{8, 64, 255, 256, 257, 348, 349, 511, 512, 513, 1023, 1024, 1025, 1500, 2047, 2048, 2049, 4096}
+				if r.Thorough() {
+					for e := 2; e <= 12; e++ {
+						ks = append(ks, 1<<e-1, 1<<e+1)
+					}
+					ks = append(ks, 4100)
+				}
+				for a := range c18Adapters {
+					for _, k := range ks {
+						seen := map[int]bool{}
+						for _, f := range []int{-1, 0, 1, 2, k / 2, k - 3, k - 2, k - 1} {
+							if f >= k || f < -1 || seen[f] {
+								continue
+							}
+							seen[f] = true
+							emit(c18BigWrite{a, k, f})
+						}
+					}
+				}
+			},
+			Check: c18CheckBigWrite, Batch: 4,
 		},
 		&engine.Enum[c18UniCase]{
 			Name: "readfrom-uniform-chunks",
